@@ -382,6 +382,8 @@ def ends_rule(repo, res, rule="ENDS"):
 
 
 def run(repo, res, tier):
+    from . import c11
+    c11.dom_get_specializations(repo, res)  # FF: every shell's arm records UserSpec.span <= the definition's lhs_span (`Unused specialization` / `Previous definition` point there)
     from . import c06
     c06.column_units(repo, res, rule="UNITS")
     from vlib import rules_pairing as RPAIR
